@@ -168,7 +168,7 @@ def run(tier, replay):
     #      every small table, deviates on / one ulp around / between all table values, the deviate 0), through the real
     #      decoder, both shooting methods and one re-used dbd_gA object, in the ASan build
     import c14
-    gmodels = c14.run_models(ck, False)
+    gmodels = c14.run_models(ck, thorough)
     if gmodels is not None:
         gcases, gpicks = gmodels
         groot = os.path.join(wd, "garoot")
